@@ -373,6 +373,86 @@ def check_args_tuple(rep, prog, m, fn):
                 rep.ob('R-ARGS', '%s args' % q, ok, det, m.rel, n.lineno, what='slot ' + slot)
 
 
+def bounds_by_any(rep, fn, body, model_idx, up_var, q, rel):
+    """the bound checks written with any(): `B is not None and any(b is not None and p < b for p, b in zip(params_up, B))` for each
+    bound B, combined into the test of one `if` that returns the penalty before the model is evaluated.  The test is evaluated as
+    a boolean function of the four atoms (bound given, some parameter beyond it) x (lower, upper) and must equal
+    (lower given and violated) or (upper given and violated).  Returns True when this form was found (obligations recorded)."""
+    sing = single_assignments(fn)
+    atoms = {}
+    for bname, op in (('lower_bound', ast.Lt), ('upper_bound', ast.Gt)):
+        for st in body[:model_idx]:
+            for c in ast.walk(st):
+                if not (isinstance(c, ast.Call) and dotted(c.func) == 'any' and len(c.args) == 1 and isinstance(c.args[0], (ast.GeneratorExp, ast.ListComp)) and len(c.args[0].generators) == 1):
+                    continue
+                g = c.args[0].generators[0]
+                if not (isinstance(g.iter, ast.Call) and dotted(g.iter.func) == 'zip' and [ast.unparse(a) for a in g.iter.args] == [up_var, bname] and isinstance(g.target, ast.Tuple)
+                        and len(g.target.elts) == 2 and not g.ifs):
+                    continue
+                pv, bv = [ast.unparse(t) for t in g.target.elts]
+                elt = c.args[0].elt
+                conj = [ast.unparse(v) for v in (elt.values if isinstance(elt, ast.BoolOp) and isinstance(elt.op, ast.And) else [elt])]
+                flip = {ast.Lt: '>', ast.Gt: '<'}[op]
+                sym = {ast.Lt: '<', ast.Gt: '>'}[op]
+                if sorted(conj) in (sorted(['%s is not None' % bv, '%s %s %s' % (pv, sym, bv)]), sorted(['%s is not None' % bv, '%s %s %s' % (bv, flip, pv)])):
+                    atoms[bname] = c
+    if len(atoms) != 2:
+        return False
+    ids = {id(atoms['lower_bound']): 'Bl', id(atoms['upper_bound']): 'Bu'}
+
+    def ev(e, val, depth=0):
+        if id(e) in ids:
+            return val[ids[id(e)]]
+        t = ast.unparse(e)
+        if t == 'lower_bound is not None':
+            return val['Al']
+        if t == 'upper_bound is not None':
+            return val['Au']
+        if t == 'lower_bound is None':
+            return not val['Al']
+        if t == 'upper_bound is None':
+            return not val['Au']
+        if isinstance(e, ast.BoolOp):
+            vs = [ev(v, val, depth) for v in e.values]
+            if any(v is None for v in vs):
+                return None
+            return all(vs) if isinstance(e.op, ast.And) else any(vs)
+        if isinstance(e, ast.UnaryOp) and isinstance(e.op, ast.Not):
+            v = ev(e.operand, val, depth)
+            return None if v is None else not v
+        if isinstance(e, ast.Name) and e.id in sing and depth < 6:
+            return ev(sing[e.id], val, depth + 1)
+        return None
+    import itertools
+    verdict = None
+    for st in body[:model_idx]:
+        if isinstance(st, ast.If) and not st.orelse and any(isinstance(x, ast.Return) for x in st.body):
+            table = []
+            for Al, Bl, Au, Bu in itertools.product([False, True], repeat=4):
+                got = ev(st.test, {'Al': Al, 'Bl': Bl, 'Au': Au, 'Bu': Bu})
+                table.append((got, (Al and Bl) or (Au and Bu)))
+            if all(g is not None for g, _ in table):
+                verdict = (st, all(g == w for g, w in table))
+    if verdict is None:
+        return False
+    st, okt = verdict
+    rets = [x for x in st.body if isinstance(x, ast.Return)]
+    for bname in ('lower_bound', 'upper_bound'):
+        rep.ob('R-DOM', '%s %s check' % (q, bname), okt and len(rets) == 1, 'test %s, with %s = %s, returns %s (truth table over bound given / violated)' % (
+            ast.unparse(st.test), bname, ast.unparse(atoms[bname])[:70], ast.unparse(rets[0].value) if rets else '?'), rel, st.lineno, what='%s checked before the model is evaluated' % bname)
+    if rets:
+        final = [x for x in body if isinstance(x, ast.Return)]
+        if final and ast.unparse(final[-1].value) != 'result':
+            try:
+                same = Translator({'result': parse_expr('_out_of_bounds_val')}).tr(final[-1].value).equals(Translator().tr(rets[0].value))
+            except AlgebraError:
+                same = True
+            for bname in ('lower_bound', 'upper_bound'):
+                rep.ob('R-ALG', '%s %s penalty' % (q, bname), same, 'out-of-bounds return %s vs normal return %s with result:=_out_of_bounds_val' % (ast.unparse(rets[0].value), ast.unparse(final[-1].value)),
+                       rel, rets[0].lineno, what='penalty has the sign and scale of the NaN guard')
+    return True
+
+
 def check_objective(rep, prog, m, fn):
     """R-DOM: model call preceded by both bound loops over the projected-up vector"""
     q = fn._qualname
@@ -391,7 +471,10 @@ def check_objective(rep, prog, m, fn):
             rep.ob('R-IDX', '%s project up' % q, ok, ast.unparse(st), rel, st.lineno, what='objective merges its argument with fixed_params')
     if model_idx is None or up_var is None:
         raise AnalysisError('anchor vanished: model call / projection in %s' % q)
+    vector_form = bounds_by_any(rep, fn, body, model_idx, up_var, q, rel)
     for bname, op, opname in (('lower_bound', ast.Lt, '<'), ('upper_bound', ast.Gt, '>')):
+        if vector_form:
+            break
         found = None
         for i, st in enumerate(body[:model_idx]):
             if isinstance(st, ast.If) and bname in names_in(st.test):
@@ -519,6 +602,18 @@ def check_projection(rep, prog, m):
                 oke = oke and ast.unparse(e[0].value) in ('fixed_params[%s]' % iv, vv)
                 ok = okt and okb and oke
                 det = 'free slots filled in order from pin, fixed slots from fixed_params'
+            elif len(ifs) == 1 and len(n.body) == 2 and n.body[0] is ifs[0] and not ifs[0].orelse and isinstance(n.body[1], ast.Assign):
+                # the same refill with the value chosen first: if v is None: v = pin[k]; k += 1   then   pout[i] = v
+                t = ifs[0].test
+                okt = isinstance(t, ast.Compare) and isinstance(t.ops[0], ast.Is) and ast.unparse(t.left) == vv and \
+                    isinstance(t.comparators[0], ast.Constant) and t.comparators[0].value is None
+                b = ifs[0].body
+                okb = len(b) == 2 and isinstance(b[0], ast.Assign) and ast.unparse(b[0].targets[0]) == vv and isinstance(b[0].value, ast.Subscript) and ast.unparse(b[0].value.value) == 'pin' \
+                    and isinstance(b[1], ast.AugAssign) and isinstance(b[1].op, ast.Add) and ast.unparse(b[1].value) == '1' and ast.unparse(b[1].target) == ast.unparse(b[0].value.slice)
+                st2 = n.body[1]
+                oke = isinstance(st2.targets[0], ast.Subscript) and ast.unparse(st2.targets[0].slice) == iv and ast.unparse(st2.value) == vv
+                ok = okt and okb and oke
+                det = 'free slots filled in order from pin, fixed slots keep their fixed values'
     rep.ob('R-TPL', '_project_params_up', ok, det or 'refill loop not recognised', rel, up.lineno, what='refills the free slots in order and the fixed slots with their fixed values')
 
 
